@@ -62,6 +62,32 @@ fn style_string(rng: &mut Rng) -> String {
     parts.join(" ")
 }
 
+/// Coverage floor: every ordered pair (a hunk-line style set to the NAME of another one), with a
+/// third member of the family set to a literal style, rendering a diff with within-line edits.
+pub fn style_reference_cells(seed: u64) -> Vec<Case> {
+    const FAMILY: &[&str] = &["plus-style", "minus-style", "zero-style", "plus-emph-style", "minus-emph-style", "plus-non-emph-style", "minus-non-emph-style"];
+    let mut out = Vec::new();
+    let mut rng = Rng::new(mix(seed, &[tag("C10"), tag("stylecells")]));
+    let mut gp = gen::random_params(&mut rng, 2);
+    gp.flavor = gen::Flavor::Git;
+    gp.sections = vec![gen::SectionKind::Modified, gen::SectionKind::ModifiedEndsChanged];
+    gp.similar_pairs = true;
+    let diff = gen::to_bytes(&gen::generate(&mut rng, &gp));
+    for a in FAMILY {
+        for b in FAMILY {
+            if a == b {
+                continue;
+            }
+            // a non-emph style of the same sign if it is free, else any free member of the family
+            let sign = &a[..4];
+            let third: &str = FAMILY.iter().copied().find(|x| x != a && x != b && x.contains("non-emph") && x.starts_with(sign)).or_else(|| FAMILY.iter().copied().find(|x| x != a && x != b && x.contains("non-emph"))).or_else(|| FAMILY.iter().copied().find(|x| x != a && x != b)).unwrap_or("zero-style");
+            let args: Vec<String> = vec!["--paging".into(), "never".into(), "--no-gitconfig".into(), "--width".into(), "100".into(), format!("--{}", a), b.to_string(), format!("--{}", third), "dim".into()];
+            out.push(Case { kind: "style-reference-cell".into(), args, gitconfig: None, env: vec![], stdin: diff.clone().into(), child: None });
+        }
+    }
+    out
+}
+
 pub fn gen_case(seed: u64, idx: usize) -> Case {
     let mut rng = Rng::new(mix(seed, &[tag("C10"), tag("det"), idx as u64]));
     let roll = rng.below(10);
@@ -260,7 +286,8 @@ pub fn main_c10(env: &Env, tier: &str, seed: u64, replay: Option<&str>) -> i32 {
         };
     }
     let (n, h) = if tier == "thorough" { (20000, 12) } else { (500, 4) };
-    let cases: Vec<Case> = (0..n).map(|i| gen_case(seed, i)).collect();
+    let mut cases: Vec<Case> = (0..n).map(|i| gen_case(seed, i)).collect();
+    cases.extend(style_reference_cells(seed));
     let pool: Vec<u64> = (0..256).map(|i| mix(seed, &[tag("C10"), tag("hashpool"), i as u64]) % 1_000_000).collect();
     let results = par_map(&env.scratch, &cases, &|ctx, i, c: &Case| {
         let hs: Vec<u64> = (0..h).map(|j| pool[(i * 7 + j * 31) % pool.len()]).collect();
